@@ -919,7 +919,7 @@ def corpus():
         # F7: notify_all before wait(): lost wake-up
         {'progs': [['p', 'w', 'c']], 'sched': [1] * 4 + [0] * 8 + [1] * 3},
         # cont() takes qlock inside plock; wait_for_cmd takes plock inside qlock
-        {'progs': [['p', 'c']], 'sched': [1] * 4 + [0] * 5 + [1] * 3 + [0]},
+        {'progs': [['p', 'c']], 'sched': [1] * 4 + [0] * 4 + [1] * 3 + [0]},
         # get_result of a command queued while the solver is paused
         {'progs': [['p', 'w', 'qd', 'm0', 'c']],
          'sched': [1] * 6 + [0] * 8 + [1] * 12},
@@ -928,7 +928,7 @@ def corpus():
          'sched': [1] * 4 + [0] * 3 + [1] * 6 + [0] * 6 + [1] * 8},
         # pause_on_next of a second thread wakes the first thread's wait()
         {'progs': [['p', 'w', 'c'], ['p', 'c']],
-         'sched': [1] * 6 + [2] * 3 + [1] * 2},
+         'sched': [1] * 7 + [2] * 4 + [1] * 2},
         # two pausing threads, second cont() against the re-checking solver
         {'progs': [['p', 'w', 'c'], ['p', 'w', 'c']],
          'sched': [1] * 4 + [2] * 4 + [1, 1, 2, 2] + [0] * 8 + [1] * 8 + [0] * 3 + [2] * 4 + [0]},
